@@ -65,6 +65,12 @@ pub fn serial_differs_in_whitespace_only(plan: &ClientPlan) -> bool {
     serial_mismatch(plan) && reported_serial(plan).trim().eq_ignore_ascii_case(plan.cfg.serial.trim())
 }
 
+/// Result codes with which a terminal declines a transaction or reports its own state in the normal
+/// course of business (as opposed to system, protocol and communication errors: 9A, FF, ...).
+pub fn business_abort(c: u8) -> bool {
+    matches!(c, 0x64..=0x6f | 0x78 | 0xa0 | 0xb4 | 0xb5 | 0xb7 | 0xb8 | 0xfc)
+}
+
 pub fn judge_faulty(plan: &ClientPlan, run: &ClientRun, out: &mut RunOut) {
     if serial_differs_in_whitespace_only(plan) {
         out.stats.hit("probe.serial_differs_in_whitespace_only");
@@ -171,6 +177,26 @@ pub fn judge_faulty(plan: &ClientPlan, run: &ClientRun, out: &mut RunOut) {
     for f in pt.fired.iter().filter(|f| matches!(f.kind, FaultKind::StaleAfter(_)) && f.at_final_frame()) {
         let k = f.conn;
         let later: Vec<&Frame> = frames.iter().filter(|x| x.conn == k && x.seq > f.seq).collect();
+        // a client that drains what lies in a connection *before* it writes the next command has
+        // discarded noise, nothing more; the rule is about bytes still unread when the command goes out
+        // (they are then read where its acknowledgement is due)
+        let mut released = 0u64;
+        for (i, e) in log.entries.iter().enumerate().filter(|(_, e)| e.conn == k) {
+            if let Ev::Release(n) = e.ev {
+                released += n as u64;
+                if i >= f.seq {
+                    break; // the release that carried the frame and the unsolicited bytes behind it
+                }
+            }
+        }
+        let first_cmd = later.iter().find(|x| x.bytes[..] != rc::ACK);
+        let unread_at_command = first_cmd.map(|c| log.entries[c.seq].cursor < released).unwrap_or(false);
+        if !unread_at_command {
+            if first_cmd.is_some() {
+                out.stats.hit("probe.stale_bytes_drained_before_command");
+            }
+            continue;
+        }
         let mut commands = 0;
         for x in &later {
             let is_ack = x.bytes[..] == rc::ACK;
@@ -202,6 +228,12 @@ pub fn judge_faulty(plan: &ClientPlan, run: &ClientRun, out: &mut RunOut) {
         if matches!(f.kind, FaultKind::WrongSerial | FaultKind::IdentityAbort(_) | FaultKind::StaleAfter(_) | FaultKind::CloseIdle) {
             // identity faults are judged with R1 above; unsolicited bytes behind a good frame are
             // only seen by the client when it reads them (the hang they may cause is C10's)
+            continue;
+        }
+        // (in the client-engine families of the wire properties C04-C06 / C15 a negative acknowledgement is
+        // not held against the connection: it ends the exchange at protocol level, and those properties
+        // say nothing about what a *later* exchange may use - C09 itself names NACK as a failure)
+        if plan.label.starts_with("via_client/") && f.at_ack && matches!(f.kind, FaultKind::Nack(_) | FaultKind::BadBody) {
             continue;
         }
         let k = f.conn;
@@ -299,7 +331,10 @@ pub fn judge_faulty(plan: &ClientPlan, run: &ClientRun, out: &mut RunOut) {
     for w in run.ops.windows(2) {
         let (a, b) = (&w[0], &w[1]);
         let clean = |o: &client::OpRecord| {
-            !fault_seqs.iter().any(|s| o.log_from <= *s && *s < o.log_to)
+            // (an exchange the terminal ended with a code that speaks of a system / protocol / communication
+            // problem is not plainly one that "completes normally": a client may well start afresh after it)
+            !pt.requests.iter().any(|r| r.op == o.index && r.abort_sent.map(|c| !business_abort(c)).unwrap_or(false))
+                && !fault_seqs.iter().any(|s| o.log_from <= *s && *s < o.log_to)
                 && !bad_connects.iter().any(|s| o.log_from <= *s && *s < o.log_to)
                 && !matches!(o.result, OpResult::Hang | OpResult::Panic { .. })
         };
@@ -589,20 +624,20 @@ impl Check for C09 {
             }
         }));
         // non-final packets inside the pending query (F6: the query used to be given up mid-exchange)
-        // a slow but healthy terminal: every packet comes well inside the per-packet time-out, the
-        // exchange as a whole takes longer than that time-out - no failure, so no reconnect, no resend
+        // a slow but healthy terminal: every packet within 10 s of the previous one, a card reading as a
+        // whole well inside the configured time - below any sensible time-out policy (the properties fix
+        // no time-out values): no failure, so no reconnect, no resend
         fams.push(Family::new("slow_but_healthy_terminal", 5 * 2, true, {
             let wl = wl.clone();
             move |i, _| {
                 let mut p = ClientPlan::plain(wl[(i % 5) as usize].clone());
                 p.cfg.max_tx = 2;
                 if i / 5 == 0 {
-                    p.cfg.read_card_timeout = 15; // 17 s per packet
-                    p.pt.pace_ms = 12_000;
+                    p.cfg.read_card_timeout = 15;
+                    p.pt.pace_ms = 5_000;
                 } else {
-                    // 60 s per packet (the handshake is not paced)
                     p.cfg.read_card_timeout = 60;
-                    p.pt.pace_ms = 25_000;
+                    p.pt.pace_ms = 9_500;
                 }
                 p.label = "slow".into();
                 p
@@ -612,7 +647,7 @@ impl Check for C09 {
         // whatever the client makes of it ('receiver not ready' at end-of-day is even tolerated): the
         // connection is kept and the next call goes out on it
         fams.push(Family::new("aborted_exchange_keeps_the_connection", 6 * 4, true, |i, _| {
-            let code = [0xa0u8, 0x6c, 0xb8, 0xff][(i % 4) as usize];
+            let code = [0xa0u8, 0x6c, 0xb8, 0x64][(i % 4) as usize];
             let eod_abort = CleanupSpec { eod: EodOutcome { pre: 0, status: false, prints: 0, end: EndSpec::Abort(code) }, ..CleanupSpec::plain() };
             let rev_abort = RevOutcome { pre: 0, status: false, prints: 0, end: EndSpec::Abort(code) };
             let ops = match i / 4 {
@@ -702,7 +737,8 @@ impl Check for C09 {
                     out.violations.push(v);
                 }
             }
-            if run.conns.len() > 1 {
+            let odd_abort = run.pt.lock().unwrap().requests.iter().any(|r| r.abort_sent.map(|c| !business_abort(c)).unwrap_or(false));
+            if run.conns.len() > 1 && !odd_abort {
                 out.fail("needless_reconnect", "r3/fault_free", format!("{} connections were opened in a run without any fault", run.conns.len()));
             }
         }
